@@ -8,15 +8,6 @@ import Qryn.TraceQL.Ast
     aggregator.go, index_limit.go, traces_data.go, complex_and.go, complex_or.go, shared.go.
     Raw SQL text the Go code writes as one string is given structure here where the semantics need it
     (`any(duration)` is `.call "any" [.raw "duration"]`); the rendering is byte-equal (text tie of C11). -/
-namespace Qryn.Sql
-/-- `s.Select(append(s.GetSelect(), cols...)...)` -/
-def Sel.addCols : Sel → List Expr → Sel
-  | .mk ws d c f j p w g h o l, cs => .mk ws d (c ++ cs) f j p w g h o l
-
-/-- `Select.AndHaving` -/
-def Sel.andHaving : Sel → List Expr → Sel
-  | .mk ws d c f j p w g h o l, cl => .mk ws d c f j p w g (some (andCond h cl)) o l
-end Qryn.Sql
 
 namespace Qryn.TraceQL
 open Qryn Qryn.Sql
